@@ -3,6 +3,7 @@ import concurrent.futures
 import hashlib
 import json
 import os
+import re
 import shutil
 import subprocess
 
@@ -115,6 +116,14 @@ def run_one(args):
     if rc == 0 and eff_outstate == "dir":
         complete = all((os.path.join(os.path.relpath(pkg, root), f) in post and post[os.path.join(os.path.relpath(pkg, root), f)][1] == ref.get((cfg["input"], name, f)))
                        for f in FILES)
+    if complete:
+        # `-name` replaces the grammar's name in EVERY file (the reference bytes come from the same binary, so a file that keeps
+        # the grammar's own name would agree with its reference): the package clause is read from the files themselves
+        for f in FILES:
+            src = open(os.path.join(pkg, f), encoding="utf-8", errors="replace").read()
+            m = re.search(r"^package[ \t]+(\S+)", src, re.M)
+            if not m or m.group(1) != name:
+                complete = False
     # names a TLA+ string cannot spell are known to the model under an ASCII alias
     alias = {"v\u00b2": "v2sup", "x\u0663": "x3arabic"}
     if name in alias:
